@@ -518,11 +518,13 @@ def run(R):
         items.append(("equiv", "scale", "doublemad", 3 if quick else 4, a))
         for lm in ("mean", "median"):
             for sm in ("std", "mad", "iqr", "sn", "qn", "gapper", "diffcov"):
-                items.append(("zequiv", lm, sm, nq, a))
+                # Sn's n inner medians make the z-score queries at lane length 8 run close to the per-query limit
+                # (measured 50 s each): its z-score equivariance is decided at lane length <= 6, its scale at 8
+                items.append(("zequiv", lm, sm, min(nq, 6) if sm == "sn" else nq, a))
         items.append(("zequiv", "median", "doublemad", 3 if quick else 4, a))
     R.bounds.update(dict(shapes=[list(s) for s in shapes], methods="scale: std, iqr, mad, sn, qn, gapper, diffcov; loc: mean, median; z-score: loc x scale incl. 'norm'",
                          axes="None, 0, 1 (and negative / tuple axes for apply_along_axes)"))
-    R.bounds.update(dict(equivariance=dict(a=[f"{n}/{d}" for n, d in avals], lane_length=nq, lane_length_doublemad=3 if quick else 4, b="symbolic real", data="symbolic reals")))
+    R.bounds.update(dict(equivariance=dict(a=[f"{n}/{d}" for n, d in avals], lane_length=nq, lane_length_sn_zscore=min(nq, 6), lane_length_doublemad=3 if quick else 4, b="symbolic real", data="symbolic reals")))
     R.assume("np.median/percentile/mean/std/partition/sort/cov/sqrt are trusted: each is an uninterpreted function of the ordered lane it is applied to",
              "order-statistic contract (instantiated for every pair of applications, see contract_instances): median/mean(c*v+d) = c*median/mean(v)+d; "
              "std(c*v+d) = |c| std(v); percentile_q and the k-th order statistic commute with c*v+d for c>0 and map to percentile_(100-q) / the (n-1-k)-th for c<0; "
